@@ -30,7 +30,7 @@ ASSUMPTIONS = [
     "a frame whose reference reading contains an undefined or not-available code may be rejected (connection reset) or delivered with the defined fields right",
     "after a malformed point the rest of that connection's bytes carry no obligation (the client resets the connection)",
 ]
-PROBES = ["c17.unknown_type", "c17.unknown_ext_sub", "c17.unknown_cs_sub", "c17.longer_stride", "c17.mutated_len", "c17.mutated_type",
+PROBES = ["c17.declared_count_mismatch", "c17.unknown_type", "c17.unknown_ext_sub", "c17.unknown_cs_sub", "c17.longer_stride", "c17.mutated_len", "c17.mutated_type",
           "c17.mutated_payload", "c17.truncated", "c17.random", "c17.rejected_then_recovered"]
 
 
@@ -89,7 +89,25 @@ def generate(rng, index: int, tier: str) -> dict:
         victim = rng.randrange(len(frames))
         fr = bytearray(frames[victim])
         hl = 8 if gen == 4 else 20
-        where = rng.choice(["len", "type", "payload", "payload", "subhdr", "addr"])
+        where = rng.choice(["len", "type", "payload", "payload", "subhdr", "addr"] + (["count", "count"] if gen == 5 else []))
+        if where == "count":
+            # an AT5 0xC0 frame whose declared record count disagrees with the records present, everything else consistent
+            from ref import wire5
+
+            kind = rng.choice(["zone", "zone", "ac", "timer"])
+            n = rng.choice([1, 2, 2, 4])
+            stride_extra = rng.choice([0, 0, 0, 3])
+            pad = lambda r, k: r[:k] + bytes(rng.randrange(256) for _ in range(stride_extra))  # noqa: E731
+            if kind == "zone":
+                recs, sub, base = [pad(wire5.enc_zone_status_record(dict(G.zone_state(rng, 5), zone=i)), 8) for i in range(n)], wire5.S_ZONE_STATUS, 8
+            elif kind == "ac":
+                recs, sub, base = [pad(wire5.enc_ac_status_record(dict(G.ac_state(rng, 5), ac=i), 10), 10) for i in range(n)], wire5.S_AC_STATUS, 10
+            else:
+                recs, sub, base = [pad(wire5.enc_timer_record({"ac": i, "on": G.timer(rng), "off": G.timer(rng)}), 9) for i in range(n)], wire5.S_TIMER_STATUS, 9
+            fr = bytearray(wire5.f_cs(rng.randrange(256), sub, recs, rlen=base + stride_extra))
+            wrong = rng.choice([c for c in (0, n - 1, n + 1, n + 256, 65535, 2 * n) if c != n and c >= 0])
+            fr[hl + 6: hl + 8] = wrong.to_bytes(2, "big")
+            frames[victim] = bytes(fr)
         if where == "len":
             pos = hl - 1 if rng.random() < 0.7 else hl - 2
             fr[pos] = (fr[pos] + rng.choice([1, 2, 255, 254, 6, 8])) & 0xFF if rng.random() < 0.8 else rng.randrange(256)
@@ -173,6 +191,15 @@ def execute(sc: dict) -> dict:
                                                        "extra": repr(got[len(refs)]["reading"])[:300]}))
     # 2. what is delivered means what the bytes mean
     for i, (r, m) in enumerate(zip(refs, got)):
+        if r["kind"] == "undef" and r.get("why") == "0xC0 lengths disagree":
+            # the sub-header contradicts the frame's own length: whatever the client makes of it, a status / control message
+            # with another number of records than the frame declares is not what these bytes say
+            recs = next((v for k, v in m["reading"].items() if isinstance(v, list) and k in ("zones", "acs", "timers")), None)
+            probes["c17.declared_count_mismatch"] = 1
+            if recs is not None and len(recs) != r["rcount"]:
+                V.append(viol("C17.misread", {"frame": frames[i]["raw"].hex(), "declared_records": r["rcount"], "delivered_records": len(recs),
+                                              "delivered_kind": m["reading"]["kind"]}, kind=m["reading"]["kind"], at="record_count"))
+                break
         d = readcmp.compare(gen, r, m["reading"])
         hard = [x for x in d if x["cls"] != "sentinel"]
         if hard:
